@@ -20,6 +20,21 @@ MAPPED = 0xFFFF << 32
 MODES = {"regular": "regular", "transparent": "transparent", "upstream": "upstream:http://example.com:3128",
          "reverse": "reverse:http://example.com", "socks5": "socks5", "dns": "dns", "wireguard": "wireguard",
          "local": "local", "tun": "tun"}
+_SPEC_ARGS = dict(MODES)
+
+
+def _registry_modes():
+    """every registered proxy mode class of the checked tree that can be instantiated (osproxy cannot: renamed)"""
+    out = {}
+    for name in mode_specs.ProxyMode._ProxyMode__types:
+        try:
+            mode_specs.ProxyMode.parse(_SPEC_ARGS.get(name, name)); out[name] = _SPEC_ARGS.get(name, name)
+        except Exception:
+            pass
+    return out
+
+
+MODES = _registry_modes()
 MODE_NAMES = list(MODES)
 ZONES = ["eth0", "1", "lo"]
 
@@ -70,10 +85,7 @@ def _table(fam):
         for probe in (hi, (lo + hi) // 2, lo + (hi - lo) // 3):
             if _cls(fam, probe) != c:
                 raise RuntimeError(f"ipaddress classification not constant on [{lo}, {hi}] (family {fam})")
-        if tbl and tbl[-1][1] == c:
-            tbl[-1] = (hi, c)
-        else:
-            tbl.append((hi, c))
+        tbl.append((hi, c))      # rows are NOT merged: every row lies inside or outside each network constant
     return tbl
 
 
@@ -85,6 +97,8 @@ def peer_text(case) -> str:
     if case["k"] == "raw":
         return unhx(case["peer_hex"]).decode("utf-8", "surrogateescape")
     fam, n, note = case["fam"], int(case["n"]), case["note"]
+    if note.startswith("raw:"):
+        return unhx(note[4:]).decode("utf-8", "surrogateescape")
     zone = case.get("zone", "eth0")
     if fam == 4:
         d = _fmt4(n)
@@ -228,13 +242,48 @@ class Check(PropertyCheck):
     def translate(self):
         def rows(tbl):
             return ",\n".join("  (%d, ⟨%s, %s, %s⟩)" % (hi, *("true" if x else "false" for x in c)) for hi, c in tbl)
-        src = ("-- GENERATED by harness/c22.py translate() from the running interpreter's `ipaddress` module. Do not edit.\n"
+
+        def nets(ns):
+            return "[" + ", ".join("(%d, %d)" % (int(n.network_address), n.prefixlen) for n in ns) + "]"
+        c4, c6 = ipaddress.IPv4Address._constants, ipaddress.IPv6Address._constants
+        # the model transcribes the 3.12.1 definitions (is_private = membership in _private_networks; IPv4 is_global =
+        # not in _public_network and not is_private; IPv6 is_global = not is_private; IPv4 is_loopback = membership in
+        # _loopback_network; IPv6 is_loopback = `_ip == 1`): an interpreter with exception lists is a different semantics
+        for c in (c4, c6):
+            extra = [k for k in vars(c) if "exception" in k.lower()]
+            if extra:
+                raise RuntimeError(f"ipaddress has {extra}: is_private/is_global differ from the transcribed 3.12.1 definitions")
+        probes6 = [0, 1, 2, 3, 0x7F000001, MAPPED + 0x7F000001, 2 ** 64, 2 ** 127, 2 ** 128 - 1]
+        loop6 = [n for n in probes6 if ipaddress.IPv6Address(n).is_loopback]
+        if loop6 != [1]:
+            raise RuntimeError(f"IPv6 is_loopback is not `_ip == 1`: {loop6}")
+        # class hierarchy of the proxy modes (what isinstance(client.proxy_mode, LocalMode) walks)
+        types = mode_specs.ProxyMode._ProxyMode__types
+        names = list(types)
+        for k in names:
+            if not k.isidentifier(): raise RuntimeError(f"mode type name {k!r} is not an identifier")
+        mro = "\n".join("  | .%s => [%s]" % (k, ", ".join('"%s"' % c.__name__ for c in types[k].__mro__)) for k in names)
+        ofname = "\n".join('  | "%s" => some .%s' % (k, k) for k in names)
+        src = ("-- GENERATED by harness/c22.py translate() from the running interpreter's `ipaddress` module and from\n"
+               "-- mitmproxy.proxy.mode_specs of the checked tree. Do not edit.\n"
                "namespace MitmVerif.Gen.C22\n\n"
                "/-- (is_loopback, is_private, is_global) -/\n"
                "structure Cls where\n  loop : Bool\n  priv : Bool\n  glob : Bool\n  deriving DecidableEq, Repr\n\n"
                "/-- (inclusive upper end of the interval, class); intervals are consecutive from 0 -/\n"
                "def v4Table : List (Nat × Cls) := [\n" + rows(_table(4)) + "]\n\n"
                "def v6Table : List (Nat × Cls) := [\n" + rows(_table(6)) + "]\n\n"
+               "/-! the interpreter's own network constants as (network_address, prefixlen) -/\n"
+               "def private4 : List (Nat × Nat) := " + nets(c4._private_networks) + "\n"
+               "def public4 : List (Nat × Nat) := " + nets([c4._public_network]) + "\n"
+               "def loopback4 : List (Nat × Nat) := " + nets([c4._loopback_network]) + "\n"
+               "def private6 : List (Nat × Nat) := " + nets(c6._private_networks) + "\n"
+               "/-- `IPv6Address.is_loopback` is `_ip == 1` (probed), i.e. membership in ::1/128 -/\n"
+               "def loopback6 : List (Nat × Nat) := [(1, 128)]\n\n"
+               "/-! the registered proxy mode classes and their `__mro__` -/\n"
+               "inductive Mode where\n" + "".join(f"  | {k}\n" for k in names) + "  deriving DecidableEq, Repr\n\n"
+               "def Mode.mro : Mode → List String\n" + mro + "\n\n"
+               "def Mode.ofName : String → Option Mode\n" + ofname + "\n  | _ => none\n\n"
+               "def Mode.all : List Mode := [" + ", ".join("." + k for k in names) + "]\n\n"
                "end MitmVerif.Gen.C22\n")
         return {"MitmVerif/Gen/C22.lean": src}
 
@@ -277,6 +326,10 @@ class Check(PropertyCheck):
             for mode in ("regular", "local"):
                 yield {"k": "raw", "peer_hex": hx(t), "mode": mode, "bg": 1, "bp": 1}
         yield from self._systematic_histories(rng, thorough)
+        for fam in (4, 6):
+            for n in self._boundary_addrs(fam):
+                if fam == 6 and (n >> 32) == 0xFFFF: continue     # mapped addresses are classified as IPv4
+                yield {"k": "cls", "fam": fam, "n": str(n)}
         pts = [(fam, n) for fam in (4, 6) for n in self._boundary_addrs(fam)]
         if not thorough:
             rng.shuffle(pts)    # a run cut short by the time budget still samples both families evenly
@@ -286,7 +339,12 @@ class Check(PropertyCheck):
             yield from self._expand(fam, n, rng, tier, thorough)
         while True:
             r = rng.random()
-            if r < 0.25:
+            if r < 0.1:
+                fam = rng.pick([4, 6]); cs = cuts[fam]; i = rng.randrange(len(cs) - 1)
+                n = rng.randint(cs[i], cs[i + 1] - 1) if rng.chance(0.7) else rng.getrandbits(32 if fam == 4 else 128)
+                if fam == 6 and (n >> 32) == 0xFFFF: continue
+                yield {"k": "cls", "fam": fam, "n": str(n)}
+            elif r < 0.3:
                 yield self._random_history(rng, cuts)
             elif r < 0.75:
                 fam = rng.pick([4, 4, 6])
@@ -371,6 +429,10 @@ class Check(PropertyCheck):
         return self._impl_step(e, case)
 
     def _impl_step(self, e, case):
+        if case["k"] == "cls":
+            # the library's own answer for this integer (tie of the table AND of the membership transcription)
+            a = ipaddress.IPv4Address(int(case["n"])) if case["fam"] == 4 else ipaddress.IPv6Address(int(case["n"]))
+            return {"cls": ",".join("true" if x else "false" for x in (a.is_loopback, a.is_private, a.is_global))}
         peer = peer_text(case)
         h, w = e.run(peer, case["mode"], case["bg"], case["bp"])
         err = h.client.error
@@ -407,8 +469,20 @@ class Check(PropertyCheck):
             for i, (st, o) in enumerate(zip(case["steps"], obs["steps"])):
                 fails += [f"call {i + 1} of {len(case['steps'])} on one Block instance: {f}" for f in self.oracle(st, o)]
             return fails
-        if case["k"] != "addr":
-            return []
+        if case["k"] == "cls":
+            return []          # library tie only (compared with the model's table and membership classes)
+        if case["k"] == "raw":
+            # a free-form peer text: when the text without its %zone suffix is an address for `ipaddress`, the same
+            # statement applies to it; a text that denotes no address is outside the statement (abstain) but must not
+            # produce an unknown error string
+            if obs["verdict"].startswith("other"):
+                return [f"unexpected client.error {obs['verdict']!r}"]
+            try:
+                a = ipaddress.ip_address(peer_text(case).rsplit("%", 1)[0])
+            except ValueError:
+                return []
+            return self.oracle({"k": "addr", "fam": a.version, "n": str(int(a)), "note": "raw:" + case["peer_hex"],
+                                "mode": case["mode"], "bg": case["bg"], "bp": case["bp"]}, obs)
         fam, n = case["fam"], int(case["n"])
         if fam == 6 and (n >> 32) == 0xFFFF:
             fam, n = 4, n & 0xFFFFFFFF       # the IPv4-mapped form of an IPv4 address is that IPv4 address
@@ -433,6 +507,8 @@ class Check(PropertyCheck):
     def model_lines(self, case):
         if case["k"] == "hist":
             return [l for st in case["steps"] for l in self.model_lines(st)]
+        if case["k"] == "cls":
+            return [f"cls {case['fam']} {case['n']}"]
         return [f"decide {hx(peer_text(case).encode('utf-8', 'surrogateescape'))} {case['mode']} {case['bg']} {case['bp']}"]
 
     def model_obs(self, case, replies):
@@ -442,11 +518,15 @@ class Check(PropertyCheck):
     def impl_view(self, case, obs):
         if case["k"] == "hist":
             return [self.impl_view(st, o) for st, o in zip(case["steps"], obs["steps"])]
+        if case["k"] == "cls":
+            return obs["cls"] + " " + obs["cls"]      # table class and membership class must both be the library's
         return obs["verdict"] + " " + ",".join(obs["trace"])
 
     def classify(self, case, obs):
         if case["k"] == "hist":
             return ("hist",) + tuple(self.classify(st, o) for st, o in zip(case["steps"], obs["steps"]))
+        if case["k"] == "cls":
+            return ("cls", case["fam"], case["n"])
         return (peer_text(case).encode("utf-8", "surrogateescape").hex(), case["mode"], case["bg"], case["bp"])
 
     def branches(self, case, obs):
@@ -461,6 +541,8 @@ class Check(PropertyCheck):
                 if same_addr and not same_opts: out.append("hist:same-addr-options-toggled")
             for o in obs["steps"]: out.append("verdict:" + o["verdict"])
             return out
+        if case["k"] == "cls":
+            return [f"cls:v{case['fam']}:{obs['cls']}"]
         out = ["verdict:" + obs["verdict"], "mode:" + ("local" if case["mode"] == "local" else "non-local")]
         if case["k"] == "addr": out.append(f"v{case['fam']}:{case['note']}")
         else: out.append("raw")
